@@ -65,7 +65,7 @@ NOTES = {}
 NOT_APPLICABLE = {
     'C02': 'quantifies over thread schedules of DashMap shard locks and crossbeam channels: Kani has no thread model and the code uses none of the permission types Verus needs; no function contract can express or decide it',
     'C09': 'deadlock / livelock freedom and progress of a busy-wait loop under thread schedules: a liveness property over schedules, outside function contracts (termination of the sequential loops is reported under C08)',
-    'C16': 'exactly-once iteration is the contract of std HashMap / dashmap iterators (dependencies, assumed not verified) and of schedules; the only repository code on that path, the expiry filter is_expired_entry, is decided under C05/C06',
+    'C16': 'exactly-once iteration is the contract of std HashMap / dashmap iterators (dependencies, assumed not verified) and of schedules; the only repository code on that path, the expiry filter of Iter::next / is_expired_entry, is decided under C05/C06',
 }
 
 _UNS = 'Proof level holds for the single-threaded cache (src/unsync/cache.rs, src/unsync/deques.rs). The concurrent cache mutates shared state through &self (atomics, Mutex, DashMap), which neither back end can frame: of it only leaf predicates, counter arithmetic, the lookup composition, (quiescent case) Inner::admit, Inner::handle_upsert, Inner::evict_lru_entries, both expiry scans and evict_expired, the bookkeeping steps handle_admit / handle_remove / handle_remove_with_deques with the tagged-pointer layer common/concurrent/deques.rs (unit sync_maint, shared entry state read as \'what this call reads\') are under contract; its maintenance is exercised by the bounded runtime stand-in rt_sync in sequential histories only, schedules are not covered. '
@@ -74,7 +74,7 @@ _ENV = 'Assumed contracts (trusted): std HashMap as a map view; common/deque.rs 
 CLAIMS = {
     'C01': dict(technique='Verus contracts on the extracted unsync insert/get/contains_key/invalidate* functions + relational lemmas',
                 text='every lookup answer is specified as a function of the map view (value of the resident binding, absent after invalidate*) and proved for all keys, hashers, weights, capacities and clock readings',
-                note=_UNS + _ENV + ' invalidate_entries_if: the removal phase (loop, unlinking, counters) is proved on the real text; its selection expression (an iterator-adapter chain Verus rejects) is replaced by an ASSUMED contract through a declared rewrite tied to the token hash of that expression, and is exercised by the bounded runtime stand-in only. Iteration is outside reach of Verus: bounded runtime stand-in only.'),
+                note=_UNS + _ENV + ' invalidate_entries_if: the removal phase (loop, unlinking, counters) is proved on the real text; its selection expression (an iterator-adapter chain Verus rejects) is replaced by an ASSUMED contract through a declared rewrite tied to the token hash of that expression, and is exercised by the bounded runtime stand-in only. Iteration: unsync Iter::next, Iter::new and Cache::iter are under contract (what next yields is a binding of the cache map, with its value, not expired at the reading taken for that item; `for .. in self.iter.by_ref()` written as loop/match by a declared rewrite) over an ASSUMED std hash_map::Iter (yields bindings of the map it was created from); the concurrent cache's iterator (dashmap) is exercised by the bounded runtime stand-in only.'),
     'C03': dict(technique='Verus contracts: free-space branch of handle_insert, frame and precision clauses of the housekeeping functions (expiry scans purge only expired entries), weight invariant',
                 text='an insert that fits is proved to add the entry and remove nobody; housekeeping is proved to remove nothing when within capacity and without expiry, and with expiry to purge only entries whose deadline has passed at the reading of the call; counters proved exact so room is never under-estimated',
                 note=_UNS + _ENV + ' That the expiry scans purge only entries whose deadline has passed at the reading of the call (and go on while the front entry is expired) is proved on the real text of remove_expired_ao / remove_expired_wo / evict_expired; it rests on two named axioms (axiom_stamp_ao / axiom_stamp_wo: a list node read through peek_front carries the stamp of the entry whose slot points to it - in src/unsync.rs the stamps physically live in the nodes, read and written through raw pointers), listed with the assumptions.'),
@@ -86,7 +86,7 @@ CLAIMS = {
                 note=_UNS + _ENV),
     'C06': dict(technique='Verus contracts: is_expired_entry_ao, record_hit, frame clauses of contains_key',
                 text='same as C05 for the idle timer; contains_key is proved to leave every timestamp untouched, only a get hit writes last_accessed',
-                note=_UNS + _ENV + ' iteration takes &self and cannot write (type system).'),
+                note=_UNS + _ENV + ' iteration takes &self and cannot write (type system); unsync Iter::next is under contract (never yields an entry that is expired at the reading taken for that item).'),
     'C07': dict(technique='Verus contracts on unsync invalidate / invalidate_all / invalidate_entries_if (removal phase)',
                 text='invalidate(k) is proved to remove exactly the binding of k from what housekeeping left, invalidate_all to empty map and lists, invalidate_entries_if to remove exactly the selected keys and leave every other entry, its stamps and the recency order untouched; only insert adds keys',
                 note=_UNS + _ENV + ' invalidate_entries_if: the selection expression (iterator-adapter chain with pattern closures, rejected by Verus) is NOT verified: a declared rewrite replaces exactly that expression (pinned by its token hash) by the assumed contract sel_keys = "the keys of the entries the (pure) predicate holds for"; everything after it is proved on the real text (`for_each` closure written as a `for` loop by a declared rewrite). The selection itself is exercised by the bounded runtime stand-in (rt_unsync) only.'),
